@@ -520,6 +520,20 @@ Fixpoint route_queued (c : fcfg) (s : fstate) (times : nat) : fstate * list ev :
     end
   end.
 
+(* grow branch for worker-queueing routers (fix aa3c2d4): hand the whole backlog over, in
+   order, until the queue is empty or nothing more can be routed *)
+Fixpoint route_backlog (c : fcfg) (s : fstate) (fuel : nat) : fstate * list ev :=
+  match fuel with
+  | O => (s, [])
+  | S k =>
+    match f_q s with
+    | [] => (s, [])
+    | _ => let (s1, e) := try_route_next c s None in
+           if len (f_q s) <=? len (f_q s1) then (s1, e)
+           else let (s2, e') := route_backlog c s1 k in (s2, e ++ e')
+    end
+  end.
+
 Definition pool_max : N := 1000000.
 
 (* resize_pool *)
@@ -530,7 +544,8 @@ Definition resize (c : fcfg) (s : fstate) (requested : N) : fstate * list ev :=
     let n := N.min pool_max requested in
     if cur <? n then
       let s1 := set_size (grow c s cur (N.to_nat (n - cur))) n in
-      route_queued c s1 (N.to_nat n)
+      if factory_queueing c then route_queued c s1 (N.to_nat n)
+      else route_backlog c s1 (length (f_q s1))
     else if n <? cur then (set_size (shrink c s n (N.to_nat (cur - n))) n, [])
     else (s, [])
   .
